@@ -173,13 +173,13 @@ class C05:
         if arg[0] == "comp" and arg[1] == "list" and len(arg[3]) == 1:
             lid, it, conds = arg[3][0]
             return (it == c and not conds and poly_of(("elem", lid), arg[2])), why
-        if arg == ("list", ()):
+        if arg == ("list", ()) or (arg[0] == "alloc" and arg[1] == "list"):
             # loop-append form
             loops = [l for l in fs.loops.values() if l.kind == "for" and l.iter == c and not l.conds]
             if len(loops) != 1:
                 return False, why
             e = ("elem", loops[0].id)
-            apps = [ev for ev in fs.calls if ev.term[1] == ("attr", ("list", ()), "append") and loops[0].id in ev.loops]
+            apps = [ev for ev in fs.calls if ev.term[1] == ("attr", arg, "append") and loops[0].id in ev.loops]
             if len(apps) != 1 or ("inloop", loops[0].id) != conjuncts(apps[0].live)[-1]:
                 return False, why + " (one unconditional append per polygon)"
             return poly_of(e, apps[0].term[2][0]), why
